@@ -380,10 +380,11 @@ def run_cases(ctx, cases):
 
 def run(ctx):
     ctx.make_overlay(need_kernel=True)
-    ctx.regen_all()
+    ctx.regen_all(needed=("py2v_data.py",))  # Gen/DataGen.v: RVData.__init__, ivar, __copy__, __getitem__ as the source has them now
     ok = ctx.build_models(MODELS)
     if ok:
         ctx.build_props()
+        ctx.build_props("Props/C15g.vo")  # the generated constructor, for every sorting permutation argsort may return
     cases = gen_cases(ctx)
     n_eval = n_nt = 0
     try:
